@@ -42,8 +42,10 @@ type metadataProviderFile struct {
 
 func NewMetadataProviderFile(path string) Provider {
 	return &metadataProviderFile{
-		path:     path,
-		fileLock: fslock.New(path),
+		path: path,
+		// The lock is taken on a separate file, because the metadata file itself
+		// gets replaced on every update
+		fileLock: fslock.New(path + ".lock"),
 	}
 }
 
@@ -115,9 +117,37 @@ func (m *metadataProviderFile) Store(cs *model.ClusterStatus, expectedVersion Ve
 		return "", err
 	}
 
-	if err := os.WriteFile(m.path, newContent, 0600); err != nil {
+	if err := writeFileAtomically(m.path, newContent); err != nil {
 		return NotExists, err
 	}
 
 	return newVersion, nil
+}
+
+// writeFileAtomically replaces the content of the file in a single step, so
+// that a crash (or a failed write, e.g. when the disk is full) at any point
+// leaves either the previous or the new content, never an empty or partial file.
+func writeFileAtomically(path string, content []byte) error {
+	tmp, err := os.CreateTemp(filepath.Dir(path), filepath.Base(path)+".tmp-*")
+	if err != nil {
+		return err
+	}
+	tmpPath := tmp.Name()
+	defer func() {
+		// This is a no-op when the rename has succeeded
+		_ = os.Remove(tmpPath)
+	}()
+
+	if _, err = tmp.Write(content); err != nil {
+		_ = tmp.Close()
+		return err
+	}
+	if err = tmp.Sync(); err != nil {
+		_ = tmp.Close()
+		return err
+	}
+	if err = tmp.Close(); err != nil {
+		return err
+	}
+	return os.Rename(tmpPath, path)
 }
